@@ -31,8 +31,12 @@ THEOREM PurityHolds == Spec => Purity
     BY <2>5, <1>1 DEF Overwrite, IsCallStep
   <2>6. CASE \E l \in Lists : MakeContractionsPop(l)
     BY <2>6, Repaired DEF MakeContractionsPop
+  <2>8. CASE \E s \in Shells : \E p2 \in 1..MaxVersions : MutateInPlace(s, p2)
+    BY <2>8, <1>1 DEF MutateInPlace, IsCallStep
+  <2>9. CASE \E s \in Shells : Rebuild(s, val[s][1])
+    BY <2>9, <1>1 DEF Rebuild, IsCallStep
   <2>7. QED
-    BY <1>1, <2>1, <2>2, <2>3, <2>4, <2>5, <2>6 DEF Next
+    BY <1>1, <2>1, <2>2, <2>3, <2>4, <2>5, <2>6, <2>8, <2>9 DEF Next
 <1>2. QED
   BY <1>1, PTL DEF Spec, Purity
 
@@ -50,8 +54,12 @@ THEOREM MemoStableHolds == Spec => MemoStable
     BY <2>5 DEF Overwrite
   <2>6. CASE \E l \in Lists : MakeContractionsPop(l)
     BY <2>6 DEF MakeContractionsPop
+  <2>8. CASE \E s \in Shells : \E p2 \in 1..MaxVersions : MutateInPlace(s, p2)
+    BY <2>8 DEF MutateInPlace
+  <2>9. CASE \E s \in Shells : Rebuild(s, val[s][1])
+    BY <2>9, RememberKeeps DEF Rebuild
   <2>7. QED
-    BY <1>1, <2>1, <2>2, <2>3, <2>4, <2>5, <2>6 DEF Next
+    BY <1>1, <2>1, <2>2, <2>3, <2>4, <2>5, <2>6, <2>8, <2>9 DEF Next
 <1>2. QED
   BY <1>1, PTL DEF Spec, MemoStable
 
@@ -59,7 +67,7 @@ THEOREM ErrStateHolds == Spec => []ErrStateKept
 <1>1. Init => ErrStateKept
   BY DEF Init, ErrStateKept
 <1>2. ASSUME ErrStateKept, [Next]_vars PROVE ErrStateKept'
-  BY <1>2 DEF ErrStateKept, Next, vars, Call, Mutate, AssignNorm, Overwrite, MakeContractionsPop
+  BY <1>2 DEF ErrStateKept, Next, vars, Call, Mutate, MutateInPlace, AssignNorm, Rebuild, Overwrite, MakeContractionsPop
 <1>3. QED
   BY <1>1, <1>2, PTL DEF Spec
 
@@ -107,8 +115,22 @@ LEMMA ValFcnInv == Spec => []ValIsFcn
       BY <3>2 DEF ValIsFcn
   <2>7. CASE \E l \in Lists : MakeContractionsPop(l)
     BY <2>7, Repaired DEF MakeContractionsPop
+  <2>9. CASE \E s \in Shells : \E p2 \in 1..MaxVersions : MutateInPlace(s, p2)
+    <3>1. PICK s \in Shells, p2 \in 1..MaxVersions : MutateInPlace(s, p2)
+      BY <2>9
+    <3>2. val' \in [Objects -> S \cup {<<p2, val[s][2]>>}]
+      BY <2>1, <3>1 DEF MutateInPlace
+    <3>3. QED
+      BY <3>2 DEF ValIsFcn
+  <2>10. CASE \E s \in Shells : Rebuild(s, val[s][1])
+    <3>1. PICK s \in Shells : Rebuild(s, val[s][1])
+      BY <2>10
+    <3>2. val' \in [Objects -> S \cup {<<val[s][1], val[s][1]>>}]
+      BY <2>1, <3>1 DEF Rebuild
+    <3>3. QED
+      BY <3>2 DEF ValIsFcn
   <2>8. QED
-    BY <1>2, <2>2, <2>3, <2>4, <2>5, <2>6, <2>7 DEF Next
+    BY <1>2, <2>2, <2>3, <2>4, <2>5, <2>6, <2>7, <2>9, <2>10 DEF Next
 <1>3. QED
   BY <1>1, <1>2, PTL DEF Spec
 
@@ -139,8 +161,23 @@ THEOREM AfterAssignHolds == Spec => []AfterAssign
     BY <2>6 DEF Overwrite, AfterAssign
   <2>7. CASE \E l \in Lists : MakeContractionsPop(l)
     BY <2>7, Repaired DEF MakeContractionsPop
+  <2>9. CASE \E s \in Shells : \E p2 \in 1..MaxVersions : MutateInPlace(s, p2)
+    BY <2>9 DEF MutateInPlace, AfterAssign
+  <2>10. CASE \E s \in Shells : Rebuild(s, val[s][1])
+    <3>1. PICK s \in Shells : Rebuild(s, val[s][1])
+      BY <2>10
+    <3>2. s \in DOMAIN val
+      BY <1>2 DEF ValIsFcn, Objects
+    <3>3. val'[s] = <<val[s][1], val[s][1]>>
+      BY <3>1, <3>2 DEF Rebuild
+    <3>4. memo'[<<"assign_norm", s, val[s][1]>>] = val[s][1]
+      BY <3>1 DEF Rebuild, Remember
+    <3>5. last' = <<"rebuild", s>>
+      BY <3>1 DEF Rebuild
+    <3>6. QED
+      BY <3>3, <3>4, <3>5 DEF AfterAssign
   <2>8. QED
-    BY <1>2, <2>2, <2>3, <2>4, <2>5, <2>6, <2>7 DEF Next
+    BY <1>2, <2>2, <2>3, <2>4, <2>5, <2>6, <2>7, <2>9, <2>10 DEF Next
 <1>3. QED
   BY <1>1, <1>2, ValFcnInv, PTL DEF Spec
 =============================================================================
